@@ -191,7 +191,45 @@ def nproc():
     return n if n > 0 else min(16, os.cpu_count() or 1)
 
 
+def raised_in_library(exc):
+    """True when some frame of the traceback is pyPRISM code and the innermost Python frame is pyPRISM code or a library it
+    calls (numpy/scipy C code has no frame): the library under test raised, not the harness."""
+    tb = exc.__traceback__
+    last = None
+    while tb is not None:
+        last = tb
+        tb = tb.tb_next
+    fn = last.tb_frame.f_code.co_filename if last is not None else ''
+    return os.path.realpath(fn).startswith(os.path.realpath(REPO) + os.sep)
+
+
+class _Guard(object):
+    """Wraps a shard function: an exception raised *inside pyPRISM* that the driver did not anticipate is a finding about the
+    code under test (the oracle could not even be evaluated), not a harness failure: it becomes a violation of the property
+    whose check was running.  Exceptions raised by harness code still propagate (exit 2)."""
+    def __init__(self, func, pid):
+        self.func, self.pid = func, pid
+
+    def __call__(self, item):
+        try:
+            return self.func(item)
+        except HarnessError:
+            raise
+        except Exception as e:
+            if not raised_in_library(e):
+                raise
+            import traceback
+            r = Rec(self.pid)
+            tbs = traceback.format_exception(type(e), e, e.__traceback__)
+            r.fail({'kind': 'unhandled', 'item': repr(item)[:2000]},
+                   'pyPRISM raised %s: %s while the check was exploring %s (no oracle could be evaluated)' % (type(e).__name__, str(e)[:120], repr(item)[:200]),
+                   {'kind': 'unhandled-library-exception', 'exc': type(e).__name__}, detail={'traceback': tbs[-6:]})
+            return r.to_dict()
+
+
 def pmap(func, items, rec=None, chunksize=1):
+    if rec is not None:
+        func = _Guard(func, rec.pid)
     """Apply func(item)->Rec-dict over items in worker processes; merge in
     submission order.  Returns the list of results (dicts) as well."""
     items = list(items)
